@@ -1,5 +1,5 @@
 CONSTANT Scenarios = {}
-CONSTANT Quirks = {}
+CONSTANT Quirks = {"ysReturnAwait"}
 INIT MCInit
 NEXT Next
 INVARIANT JobsFifo
